@@ -193,6 +193,9 @@ func contractMentions(fc *FuncContract, p string) bool {
 
 // obligationCounts decides whether an obligation counts for property p.
 func obligationFor(ob *Obligation, fc *FuncContract, p string) bool {
+	if fc.AutoVolatile {
+		return ob.Kind == "volatile" || ob.Kind == "subset"
+	}
 	if len(ob.Props) > 0 {
 		return hasProp(ob.Props, p)
 	}
@@ -293,6 +296,29 @@ func RunCheck(opt Options) int {
 		}
 		if opt.Verbose {
 			fmt.Printf("loaded %v in %.1fs\n", patterns, time.Since(t0).Seconds())
+		}
+		// every module function that stores to a volatile field must keep its relation: writers without a contract for
+		// this property are verified too (only their `volatile` obligations count)
+		if opt.OnlyFunc == "" {
+			have := map[string]bool{}
+			for _, t := range tg {
+				have[t.key] = true
+			}
+			for _, tk := range sortedKeys(cs.types) {
+				tc := cs.types[tk]
+				for _, vs := range tc.Volatile {
+					if len(vs.Props) > 0 && !hasProp(vs.Props, opt.Prop) {
+						continue
+					}
+					for _, fk := range sortedKeys(ld.funcs) {
+						if have[fk] || !storesToField(ld.funcs[fk], tc.Key, vs.Field) {
+							continue
+						}
+						have[fk] = true
+						tg = append(tg, target{fk, &FuncContract{Key: fk, AutoVolatile: true, Props: []string{opt.Prop}}, ""})
+					}
+				}
+			}
 		}
 		for _, t := range tg {
 			fn := ld.funcs[t.key]
@@ -916,7 +942,11 @@ func (v *Verifier) VerifyFunction(fn *ssa.Function, fc *FuncContract) (err error
 			continue
 		}
 		ev := &Eval{v: v, st: st, old: st, env: map[string]*Value{}, mode: evalCall, pkg: fnPkg(fn)}
-		st.assume(ev.boolExpr(ax.Expr))
+		axt := ev.boolExpr(ax.Expr)
+		if os.Getenv("GOVC_DEBUG") == "axiom" {
+			fmt.Fprintf(os.Stderr, "DEBUG axiom %s => %s\n", ax.Text, trunc(axt.String(), 600))
+		}
+		st.assume(axt)
 		v.assumptions["axiom ("+ax.Scope+"): "+ax.Text] = true
 	}
 	st.frame = nil
@@ -986,6 +1016,13 @@ func (v *Verifier) VerifyFunction(fn *ssa.Function, fc *FuncContract) (err error
 				v.addOb(e.st, "post", fn.Pos(), ev.boolExpr(c.Expr), "ensures "+c.Text, c.Props)
 			}
 		}
+		// frame: an explicit `modifies` clause is checked against the body
+		if hasModifies(fc) {
+			keys, goals := v.frameGoals(e.st, nil)
+			for i, k := range keys {
+				v.addOb(e.st, "frame", fn.Pos(), goals[i], "modifies: "+k+" changes only at the declared targets", nil)
+			}
+		}
 		// refinement: ensures of interface-method contracts this method implements
 		for _, ic := range v.ifaceContractsFor(fn) {
 			iev := &Eval{v: v, st: e.st, old: v.entry, env: map[string]*Value{}, mode: evalCall, fc: ic, pkg: fnPkg(fn)}
@@ -1017,6 +1054,145 @@ func (v *Verifier) VerifyFunction(fn *ssa.Function, fc *FuncContract) (err error
 		}
 	}
 	return nil
+}
+
+// storesToField: fn contains a store to field `field` of the struct type named typeKey (pkg.Type).
+func storesToField(fn *ssa.Function, typeKey, field string) bool {
+	for _, b := range fn.Blocks {
+		for _, ins := range b.Instrs {
+			st, ok := ins.(*ssa.Store)
+			if !ok {
+				continue
+			}
+			fa, ok := st.Addr.(*ssa.FieldAddr)
+			if !ok {
+				continue
+			}
+			pt, ok := under(fa.X.Type()).(*types.Pointer)
+			if !ok {
+				continue
+			}
+			u, ok := under(pt.Elem()).(*types.Struct)
+			if !ok {
+				continue
+			}
+			if typeName(pt.Elem()) == typeKey && u.Field(fa.Field).Name() == field {
+				return true
+			}
+		}
+	}
+	return false
+}
+
+func hasModifies(fc *FuncContract) bool {
+	if fc == nil {
+		return false
+	}
+	for _, c := range fc.Clauses {
+		if c.Kind == "modifies" && !c.IsLoop {
+			return true
+		}
+	}
+	return false
+}
+
+// frameHeap: heap arrays subject to the frame check (data, ghost fields, Once flags).
+func frameHeap(k string) bool {
+	for p := range foreignPrivate {
+		if strings.HasPrefix(k, p) {
+			return false
+		}
+	}
+	for _, p := range []string{"F:", "E:", "P:", "M:", "B:", "G:", "O:"} {
+		if strings.HasPrefix(k, p) {
+			return true
+		}
+	}
+	return false
+}
+
+// frameGoals states, for the function being verified (v.top), that state cur differs from the entry state only at
+// the targets of its `modifies` clauses and at objects allocated since entry: the entry heap is updated at every
+// declared target with the value found in cur, and must then agree with cur on every object that existed at entry.
+// only == nil: all heap arrays that differ syntactically; otherwise the listed ones.
+func (v *Verifier) frameGoals(cur *State, only map[string]Sort) (keys []string, goals []*Term) {
+	fn := v.top
+	fc := v.contracts.forFunc(fn)
+	if fc == nil || !hasModifies(fc) {
+		return
+	}
+	mod := v.entry.clone()
+	ev := &Eval{v: v, st: mod, old: v.entry, env: map[string]*Value{}, mode: evalPost, fn: fn, fc: fc, pkg: fnPkg(fn), cells: v.topCells, frameFrom: cur}
+	if v.topClo != nil {
+		for i, fv := range fn.FreeVars {
+			et := fv.Type().(*types.Pointer).Elem()
+			ev.env[fv.Name()] = v.entry.loadPtr(v.topClo.Binds[i].term(), et)
+		}
+	}
+	for _, c := range fc.Clauses {
+		if c.Kind == "modifies" && !c.IsLoop {
+			for _, e := range c.Exprs {
+				ev.havocTarget(e)
+			}
+		}
+	}
+	cand := map[string]bool{}
+	if only != nil {
+		for k := range only {
+			cand[k] = true
+		}
+	} else {
+		for k := range cur.heap {
+			cand[k] = true
+		}
+	}
+	wm0 := v.entry.wm
+	for _, k := range sortedKeys(cand) {
+		if !frameHeap(k) {
+			continue
+		}
+		hc, ok := cur.heap[k]
+		if !ok {
+			continue
+		}
+		hm := mod.heapArr(k, hc.sort)
+		if hm == hc {
+			continue
+		}
+		is, _, ok := arrayParts(hc.sort)
+		if !ok {
+			continue
+		}
+		r := BoundVar("r!frame", is)
+		body := Eq(Select(hc, r), Select(hm, r))
+		if is == SInt {
+			// nothing lives at the nil reference
+			body = Implies(And(Lt(Int(0), r), Le(r, wm0)), body)
+		}
+		keys = append(keys, k)
+		goals = append(goals, Forall([]*Term{r}, body, []*Term{Select(hc, r)}))
+	}
+	// ghost globals not named in a modifies clause keep their value
+	if only == nil {
+		for _, g := range sortedKeys(cur.ghost) {
+			if strings.HasPrefix(g, "$") {
+				continue
+			}
+			a, b := cur.ghost[g], mod.ghost[g]
+			if a == nil || b == nil || valueIdentical(a, b) {
+				continue
+			}
+			var eqs []*Term
+			for i := range a.L {
+				if a.L[i] != nil && b.L[i] != nil {
+					eqs = append(eqs, Eq(a.L[i], b.L[i]))
+				}
+			}
+			keys = append(keys, "ghost "+g)
+			goals = append(goals, And(eqs...))
+		}
+	}
+	return
 }
 
 // ifaceContractsFor returns interface-method contracts that fn (a method) must refine.
